@@ -24,7 +24,8 @@ ASSUMPTIONS = [
 TRUSTED = ["the plain-dict reference machine in this module (py_ref_step) used as the direct oracle"]
 
 # key set: case variants of the same names, as str and as bytes.  A key is [0, text] (str) or [1, text] (bytes)
-KEYS = [[0, "a"], [0, "A"], [1, "a"], [0, "ab"], [0, "Ab"], [0, "aB"], [1, "AB"], [0, "x-y"], [0, "X-Y"]]
+KEYS = [[0, "a"], [0, "A"], [1, "a"], [0, "ab"], [0, "Ab"], [0, "aB"], [1, "AB"], [0, "x-y"], [0, "X-Y"],
+        [0, "\ufeffa"], [0, "a "], [0, "\u00a0A"]]          # a name with an invisible character at an end is another name
 ARGS = [
     [],
     [[[0, "a"], 1], [[0, "A"], 2], [[0, "ab"], 3]],
@@ -499,8 +500,10 @@ def run(ctx, res):
     n_steps = 0
     for (kind, clsname, ops, rows), tr in zip(meta, outs):
         if tr is not None and tr[:1] == ["unsupported"]:
+            # the model declines (a key outside ASCII): counted, and the sequence is still compared with the plain-dict
+            # reference below
             res.corr("CaselessDict.step", [wire_op(o) for o in ops], None, tr)
-            continue
+            tr = None
         for i, (o, r, state, rr, rstate) in enumerate(rows):
             n_steps += 1
             inp = {"class": clsname, "ops": ops[:i + 1]}
